@@ -260,9 +260,9 @@ two equal members …"*.
 
 The functions spoken about are the transliterations the harness diffs against
 /repo: `Num.rawEqual` (`rawNumberEqual`), `Value.equals` (`Value.Equals`),
-`Value.rawEquals` (`Value.RawEquals`), `Value.hashBytes` / `Value.hash`
-(`appendSetHashBytes`, `Value.Hash`), `ctyRules` (`setRules`), `Value.setVal`
-(`cty.SetVal`).  `Value.wf` is shape well-formedness (`SetRulesSpec.lean`);
+`Value.rawEq` (`Value.RawEquals`), `Value.hashBytes` / `Value.hash`
+(`appendSetHashBytes`, `Value.Hash`), `ctyRules` (`setRules`), `Value.mkSetVal`
+(`cty.SetVal`).  `Value.shaped` is shape well-formedness (`SetRulesSpec.lean`);
 `Ty.plain` = no set type and no capsule type occurs — the proved frontier:
 `RawEquals`, `Hash` and `Less` of a set-typed value go through the set's
 iteration order, which is itself defined by `Less`, `RawEquals` and the hash
@@ -292,35 +292,35 @@ theorem numEq_equiv (text : Num → String) :
 
 /-- `RawEquals` never panics on well-formed values of plain types and is decided
 by the structural specification `rawB`. -/
-theorem rawEquals_total (a b : Value) (wa : a.wf = true) (wb : b.wf = true) (pa : a.ty.plain = true) :
-    ∃ r, rawEquals a b = .ok r :=
+theorem rawEquals_total (a b : Value) (wa : a.shaped = true) (wb : b.shaped = true) (pa : a.ty.plain = true) :
+    ∃ r, rawEq a b = .ok r :=
   ⟨_, rawEquals_eq_rawB a b wa wb pa⟩
 
 /-- reflexive (marks, nulls, unknowns with any refinement, nesting included) -/
-theorem rawEquals_refl (v : Value) (hw : v.wf = true) (hp : v.ty.plain = true) :
-    rawEquals v v = .ok true := by
+theorem rawEquals_refl (v : Value) (hw : v.shaped = true) (hp : v.ty.plain = true) :
+    rawEq v v = .ok true := by
   rw [rawEquals_eq_rawB v v hw hw hp]
-  simp [rawB_refl v.ty v.v hp ((Value.wf_iff v).mp hw).2]
+  simp [rawB_refl v.ty v.v hp ((Value.shaped_iff v).mp hw).2]
 
 /-- symmetric: the same answer (not only the same truth) in both directions -/
-theorem rawEquals_symm (a b : Value) (wa : a.wf = true) (wb : b.wf = true) (pa : a.ty.plain = true)
-    (pb : b.ty.plain = true) : rawEquals a b = rawEquals b a := by
+theorem rawEquals_symm (a b : Value) (wa : a.shaped = true) (wb : b.shaped = true) (pa : a.ty.plain = true)
+    (pb : b.ty.plain = true) : rawEq a b = rawEq b a := by
   rw [rawEquals_eq_rawB a b wa wb pa, rawEquals_eq_rawB b a wb wa pb]
   obtain ⟨ta, va⟩ := a
   obtain ⟨tb, vb⟩ := b
   by_cases h : ta = tb
   · subst h
     simp only [decide_true, Bool.true_and]
-    rw [rawB_symm ta va vb pa ((Value.wf_iff _).mp wa).2 ((Value.wf_iff _).mp wb).2]
+    rw [rawB_symm ta va vb pa ((Value.shaped_iff _).mp wa).2 ((Value.shaped_iff _).mp wb).2]
   · have h' : ¬ tb = ta := fun e => h e.symm
     simp only [] at h h' ⊢
     rw [decide_eq_false h, decide_eq_false h']
     rfl
 
 /-- transitive -/
-theorem rawEquals_trans (a b c : Value) (wa : a.wf = true) (wb : b.wf = true) (wc : c.wf = true)
-    (pa : a.ty.plain = true) (h1 : rawEquals a b = .ok true) (h2 : rawEquals b c = .ok true) :
-    rawEquals a c = .ok true := by
+theorem rawEquals_trans (a b c : Value) (wa : a.shaped = true) (wb : b.shaped = true) (wc : c.shaped = true)
+    (pa : a.ty.plain = true) (h1 : rawEq a b = .ok true) (h2 : rawEq b c = .ok true) :
+    rawEq a c = .ok true := by
   rw [rawEquals_eq_rawB a b wa wb pa] at h1
   simp only [Res.ok.injEq, Bool.and_eq_true, decide_eq_true_eq] at h1
   have pb : b.ty.plain = true := h1.1 ▸ pa
@@ -329,8 +329,8 @@ theorem rawEquals_trans (a b c : Value) (wa : a.wf = true) (wb : b.wf = true) (w
   rw [rawEquals_eq_rawB a c wa wc pa]
   have hac : a.ty = c.ty := h1.1.trans h2.1
   simp only [hac, decide_true, Bool.true_and, Res.ok.injEq]
-  have := rawB_trans a.ty a.v b.v c.v pa ((Value.wf_iff a).mp wa).2 (h1.1 ▸ ((Value.wf_iff b).mp wb).2)
-    (hac ▸ ((Value.wf_iff c).mp wc).2) h1.2 (h1.1 ▸ h2.2)
+  have := rawB_trans a.ty a.v b.v c.v pa ((Value.shaped_iff a).mp wa).2 (h1.1 ▸ ((Value.shaped_iff b).mp wb).2)
+    (hac ▸ ((Value.shaped_iff c).mp wc).2) h1.2 (h1.1 ▸ h2.2)
   rw [← hac]; exact this
 
 /-! ### Equals -/
@@ -343,14 +343,14 @@ operands `Equals` is this function on the deeply unmarked operands with the
 union of both mark sets re-applied.)  Besides symmetry of the member
 comparisons this needs that none of them panics: the map branch looks the keys
 of each side up in the other. -/
-theorem equals_symm (a b : Value) (wa : a.wf = true) (wb : b.wf = true) (pa : a.ty.plain = true)
+theorem equals_symm (a b : Value) (wa : a.shaped = true) (wb : b.shaped = true) (pa : a.ty.plain = true)
     (pb : b.ty.plain = true) (ma : a.containsMarked = false) (mb : b.containsMarked = false) :
     equals a b = equals b a :=
   equals_symm_of_wf a b wa wb pa pb ma mb
 
 /-- …and on such values of one type it never panics: it answers True, False or unknown. -/
 theorem equals_total (t : Ty) (a b : Payload) (hw : t.wf = true) (hp : t.plain = true)
-    (wa : a.wf t = true) (ma : a.containsMarked = false) (wb : b.wf t = true) (mb : b.containsMarked = false) :
+    (wa : a.shaped t = true) (ma : a.containsMarked = false) (wb : b.shaped t = true) (mb : b.containsMarked = false) :
     ∃ acc, equals ⟨t, a⟩ ⟨t, b⟩ = .ok (accVal acc) := by
   simp only [equals, Value.containsMarked, ma, mb, Bool.or_self, Bool.false_eq_true, if_false, equalsP]
   obtain ⟨acc, h, _⟩ := equalsFuel_symm (max a.depth b.depth + 1) t a b hw hp ⟨wa, ma, by omega⟩ ⟨wb, mb, by omega⟩
@@ -368,26 +368,26 @@ theorem equals_nulls (t t' : Ty) :
   refine ⟨?_, fun p hk hn hm => ⟨?_, ?_⟩⟩
   · simp only [equals, Value.containsMarked, Payload.containsMarked, Bool.or_self, Bool.false_eq_true,
       if_false, equalsP, equalsFuel]
-    rw [equalsPre_known _ _ _ _ rfl rfl]
+    rw [equalsPre_of_known _ _ _ _ rfl rfl]
     rfl
   · simp only [equals, Value.containsMarked, Payload.containsMarked, hm, Bool.or_self, Bool.false_eq_true,
       if_false, equalsP, equalsFuel]
-    rw [equalsPre_known _ _ _ _ rfl hk]
+    rw [equalsPre_of_known _ _ _ _ rfl hk]
     simp [hn, show Payload.isNull .null = true from rfl]
   · simp only [equals, Value.containsMarked, Payload.containsMarked, hm, Bool.or_self, Bool.false_eq_true,
       if_false, equalsP, equalsFuel]
-    rw [equalsPre_known _ _ _ _ hk rfl]
+    rw [equalsPre_of_known _ _ _ _ hk rfl]
     simp [hn, show Payload.isNull .null = true from rfl]
 
 /-- On wholly known, mark-free, well-formed values of one PLAIN type, `Equals`
 returns exactly the truth value `RawEquals` returns (both are `rawB`). -/
 theorem equals_eq_rawEquals_of_known_partial (t : Ty) (a b : Payload) (hw : t.wf = true) (hp : t.plain = true)
-    (wa : a.wf t = true) (ka : a.whollyKnown = true) (ma : a.containsMarked = false)
-    (wb : b.wf t = true) (kb : b.whollyKnown = true) (mb : b.containsMarked = false) :
-    equals ⟨t, a⟩ ⟨t, b⟩ = (rawEquals ⟨t, a⟩ ⟨t, b⟩).map boolVal ∧
-    (equals ⟨t, a⟩ ⟨t, b⟩ = .ok (boolVal true) ↔ rawEquals ⟨t, a⟩ ⟨t, b⟩ = .ok true) := by
+    (wa : a.shaped t = true) (ka : a.whollyKnown = true) (ma : a.containsMarked = false)
+    (wb : b.shaped t = true) (kb : b.whollyKnown = true) (mb : b.containsMarked = false) :
+    equals ⟨t, a⟩ ⟨t, b⟩ = (rawEq ⟨t, a⟩ ⟨t, b⟩).map boolVal ∧
+    (equals ⟨t, a⟩ ⟨t, b⟩ = .ok (boolVal true) ↔ rawEq ⟨t, a⟩ ⟨t, b⟩ = .ok true) := by
   have h1 := equals_of_members hw hp wa ka ma wb kb mb
-  have h2 := rawEquals_eq_rawB ⟨t, a⟩ ⟨t, b⟩ ((Value.wf_iff _).mpr ⟨hw, wa⟩) ((Value.wf_iff _).mpr ⟨hw, wb⟩) hp
+  have h2 := rawEquals_eq_rawB ⟨t, a⟩ ⟨t, b⟩ ((Value.shaped_iff _).mpr ⟨hw, wa⟩) ((Value.shaped_iff _).mpr ⟨hw, wb⟩) hp
   simp only [decide_true, Bool.true_and] at h2
   rw [h1, h2]
   refine ⟨rfl, ?_⟩
@@ -395,9 +395,9 @@ theorem equals_eq_rawEquals_of_known_partial (t : Ty) (a b : Payload) (hw : t.wf
 
 /-- …and so, on that frontier, `Equals` is reflexive, symmetric and transitive. -/
 theorem equals_equiv_of_known (t : Ty) (hw : t.wf = true) (hp : t.plain = true) (a b c : Payload)
-    (wa : a.wf t = true) (ka : a.whollyKnown = true) (ma : a.containsMarked = false)
-    (wb : b.wf t = true) (kb : b.whollyKnown = true) (mb : b.containsMarked = false)
-    (wc : c.wf t = true) (kc : c.whollyKnown = true) (mc : c.containsMarked = false) :
+    (wa : a.shaped t = true) (ka : a.whollyKnown = true) (ma : a.containsMarked = false)
+    (wb : b.shaped t = true) (kb : b.whollyKnown = true) (mb : b.containsMarked = false)
+    (wc : c.shaped t = true) (kc : c.whollyKnown = true) (mc : c.containsMarked = false) :
     equals ⟨t, a⟩ ⟨t, a⟩ = .ok (boolVal true) ∧
     equals ⟨t, a⟩ ⟨t, b⟩ = equals ⟨t, b⟩ ⟨t, a⟩ ∧
     (equals ⟨t, a⟩ ⟨t, b⟩ = .ok (boolVal true) → equals ⟨t, b⟩ ⟨t, c⟩ = .ok (boolVal true) →
@@ -414,9 +414,9 @@ theorem equals_equiv_of_known (t : Ty) (hw : t.wf = true) (hp : t.plain = true) 
 /-- The full-strength clause — for every pair of wholly known mark-free well-formed
 values of one type, sets included. -/
 def EqualsAgreesWithRawEquals : Prop :=
-  ∀ a b : Value, a.wf = true → b.wf = true → a.ty = b.ty → a.whollyKnown = true → b.whollyKnown = true →
+  ∀ a b : Value, a.shaped = true → b.shaped = true → a.ty = b.ty → a.whollyKnown = true → b.whollyKnown = true →
     a.containsMarked = false → b.containsMarked = false →
-    (equals a b = .ok (boolVal true) ↔ rawEquals a b = .ok true)
+    (equals a b = .ok (boolVal true) ↔ rawEq a b = .ok true)
 
 /-! ### cty's set rules are lawful — where they are -/
 
@@ -430,7 +430,7 @@ def ctyRulesOn (e : Ty) (ns : List Num) : Rules (Member e ns) where
   less := (ctyRules e).less.map fun l a b => l a.1 b.1
 
 theorem Member.spec {e : Ty} {ns : List Num} (p : Member e ns) :
-    p.1.wf e = true ∧ p.1.whollyKnown = true ∧ p.1.containsMarked = false ∧ p.1.numsIn ns = true := by
+    p.1.shaped e = true ∧ p.1.whollyKnown = true ∧ p.1.containsMarked = false ∧ p.1.numsIn ns = true := by
   have := p.2
   simp only [Payload.member, Bool.and_eq_true, Bool.not_eq_true'] at this
   exact ⟨this.1.1.1, this.1.1.2, this.1.2, this.2⟩
@@ -520,7 +520,7 @@ theorem hash_incoherent_counterexample :
     hashBytes (numVal w4f) = .ok (strBytes "3.94777941") ∧
     hashBytes (numVal w4p) = .ok (strBytes "3.947779411") ∧
     Value.hash (numVal w4f) = .ok 1243578146 ∧ Value.hash (numVal w4p) = .ok 1459007788 ∧
-    setVal [numVal w4f, numVal w4p] = .ok ⟨.set .number, .sset [1243578146, 1459007788] [.n w4f, .n w4p]⟩ ∧
+    mkSetVal [numVal w4f, numVal w4p] = .ok ⟨.set .number, .sset [1243578146, 1459007788] [.n w4f, .n w4p]⟩ ∧
     HashCoherentNums [w4f, w4p] = false := by decide +kernel
 
 /-- the two numbers as admitted members of a set of numbers -/
@@ -570,10 +570,10 @@ theorem set_order_counterexample :
     equals ⟨w6T, w6a⟩ ⟨w6T, w6b⟩ = .ok (boolVal false) ∧
     hashBytes ⟨w6T, w6a⟩ = hashBytes ⟨w6T, w6b⟩ ∧
     setLess w6T w6a w6b = .ok false ∧ setLess w6T w6b w6a = .ok false ∧
-    setVal [⟨w6T, w6a⟩, ⟨w6T, w6b⟩] = .ok ⟨.set w6T, .sset [3407990228, 3407990228] [w6a, w6b]⟩ ∧
-    setVal [⟨w6T, w6b⟩, ⟨w6T, w6a⟩] = .ok ⟨.set w6T, .sset [3407990228, 3407990228] [w6b, w6a]⟩ ∧
+    mkSetVal [⟨w6T, w6a⟩, ⟨w6T, w6b⟩] = .ok ⟨.set w6T, .sset [3407990228, 3407990228] [w6a, w6b]⟩ ∧
+    mkSetVal [⟨w6T, w6b⟩, ⟨w6T, w6a⟩] = .ok ⟨.set w6T, .sset [3407990228, 3407990228] [w6b, w6a]⟩ ∧
     setIter w6T [w6a, w6b] = .ok [w6a, w6b] ∧ setIter w6T [w6b, w6a] = .ok [w6b, w6a] ∧
-    rawEquals ⟨.set w6T, .sset [3407990228, 3407990228] [w6a, w6b]⟩
+    rawEq ⟨.set w6T, .sset [3407990228, 3407990228] [w6a, w6b]⟩
       ⟨.set w6T, .sset [3407990228, 3407990228] [w6b, w6a]⟩ = .ok false ∧
     equals ⟨.set w6T, .sset [3407990228, 3407990228] [w6a, w6b]⟩
       ⟨.set w6T, .sset [3407990228, 3407990228] [w6b, w6a]⟩ = .ok (boolVal true) := by decide +kernel
@@ -581,8 +581,8 @@ theorem set_order_counterexample :
 /-- the full-strength clause: a set built from a permutation of the same inputs
 is the same value (same members in the same iteration order) -/
 def SetValOrderIndependent : Prop :=
-  ∀ (l l' : List Value) (s s' : Value), l.Perm l' → setVal l = .ok s → setVal l' = .ok s' →
-    rawEquals s s' = .ok true
+  ∀ (l l' : List Value) (s s' : Value), l.Perm l' → mkSetVal l = .ok s → mkSetVal l' = .ok s' →
+    rawEq s s' = .ok true
 
 theorem setVal_order_independent_false : ¬ SetValOrderIndependent := by
   intro h
